@@ -192,12 +192,12 @@ class Env:
                 return self.rv_term(d[3], (d[0], d[1]), depth - 1, root)
         # deref of a reference temp: *(&x) == x
         # (also through a named shared reference bound once, e.g. the by-reference binding of a match guard)
-        if pr == ["*"] and (root not in b.names or (b.lty(root).startswith("&") and not b.lty(root).startswith("&mut")
-                                                    and not self.is_arg(root))):
+        if pr[0] == "*" and depth > 0 and (root not in b.names or (b.lty(root).startswith("&") and not b.lty(root).startswith("&mut")
+                                                                   and not self.is_arg(root))):
             d = b.single_def(root)
-            if d and d[2] == "rv" and d[3]["k"] == "ref":
-                return self.place_term(d[3]["p"], (d[0], d[1]), depth - 1)
-            if d and d[2] == "rv" and d[3]["k"] == "use":
+            if d and d[2] == "rv" and d[3]["k"] == "ref" and (len(pr) == 1 or not d[3].get("mut")):
+                return self.place_term({"l": d[3]["p"]["l"], "p": list(d[3]["p"]["p"]) + list(pr[1:])}, (d[0], d[1]) if len(pr) == 1 else pos, depth - 1)
+            if d and d[2] == "rv" and d[3]["k"] == "use" and len(pr) == 1:
                 ip = op_place(d[3]["o"])
                 if ip is not None:
                     return self.place_term({"l": ip["l"], "p": ip["p"] + ["*"]}, (d[0], d[1]), depth - 1)
@@ -251,6 +251,13 @@ class Env:
     def local_term(self, l, pos, depth=6):
         b = self.b
         ty = b.lty(l)
+        if (l in b.names and not self.is_arg(l) and depth > 0 and ty.startswith("&") and not ty.startswith("&mut")):
+            # a named shared reference bound once (pattern bindings `Some(x)`, `ref x`, match-guard bindings): it denotes
+            # the place it was taken from, like an unnamed reference temporary
+            alld = b.defs.get(l, [])
+            if len(alld) == 1 and alld[0][2] == "rv" and alld[0][3]["k"] == "ref" and not alld[0][3].get("mut"):
+                d = alld[0]
+                return self.rv_term(d[3], (d[0], d[1]), depth - 1, l)
         if l in b.names or self.is_arg(l) or depth <= 0:
             return Term(self.uname(l), 0, [(l, pos)], ty)
         d = b.single_def(l)
